@@ -658,6 +658,10 @@ func (s *SegmentBase) DocNumbers(ids []string) (*roaring.Bitmap, error) {
 		if err != nil {
 			return nil, err
 		}
+		if idDict == nil || idDict.fst == nil {
+			// fields but no documents, hence no _id dictionary
+			return rv, nil
+		}
 
 		postingsList := emptyPostingsList
 
